@@ -1,5 +1,7 @@
 mod posgen;
 mod proj;
+mod chain;
+mod notation;
 mod query;
 mod session;
 
@@ -126,7 +128,9 @@ fn regen(prop: &str, input: &Path, out: &Path) {
         _ => {
             if let Some(sess) = rep["session"].as_array() {
                 sink.begin(&json!({"prop": prop, "session": "replay"}));
-                for e in session::reexec(sess) {
+                let is_chain = sess.first().map(|e| e["ev"] == "c_new").unwrap_or(false);
+                let evs = if is_chain { chain::reexec(sess) } else { session::reexec(sess) };
+                for e in evs {
                     sink.emit(&e);
                 }
                 // stateless extras are re-emitted as recorded inputs
@@ -137,6 +141,207 @@ fn regen(prop: &str, input: &Path, out: &Path) {
         }
     }
     sink.finish();
+}
+
+const SHUFFLE_STARTS: [&str; 12] = [
+    "4k3/8/8/8/8/8/8/R3K3 w - - 90 60",
+    "4k3/8/8/8/8/8/8/R3K3 w Q - 0 1",
+    "r3k2r/8/8/8/8/8/8/R3K2R w KQkq - 0 1",
+    "r3k2r/8/8/8/8/8/8/R3K2R b KQkq - 96 70",
+    "8/8/4k3/8/2n5/8/3NK3/8 w - - 140 100",
+    "8/8/4k3/8/2n5/8/3NK3/8 b - - 97 100",
+    "6k1/5ppp/8/8/8/8/5PPP/2R3K1 w - - 0 30",
+    "rnbqkbnr/pppppppp/8/8/8/8/PPPPPPPP/RNBQKBNR w KQkq - 0 1",
+    "4k3/8/8/3pP3/8/8/8/4K2R w K d6 0 1",
+    "4k2r/8/8/8/3Pp3/8/8/4K3 b k d3 0 1",
+    "8/8/8/4k3/8/8/3QK3/8 w - - 148 90",
+    "7k/8/8/8/8/8/8/KQ6 w - - 98 1",
+];
+
+fn gen_chain(prop: &str, n: usize, rng: &mut StdRng, sink: &mut Sink) {
+    use rand::seq::SliceRandom;
+    use rand::Rng;
+    let ctx = query::Ctx::new();
+    let positions = posgen::mixed(rng, n);
+    let with_san = std::env::var("HARNESS_NO_SAN").is_err();
+    for (i, b) in positions.iter().enumerate() {
+        let (start, profile, nops) = match prop {
+            "C14" => {
+                if i % 4 != 3 {
+                    let f = SHUFFLE_STARTS.choose(rng).unwrap();
+                    (owlchess::Board::from_fen(f).unwrap(), "shuffle", rng.gen_range(20..90))
+                } else {
+                    (b.clone(), "shuffle", rng.gen_range(10..50))
+                }
+            }
+            "C17" => (b.clone(), "walk", rng.gen_range(8..40)),
+            _ => (b.clone(), "mixed", rng.gen_range(8..45)),
+        };
+        sink.begin(&json!({"prop": prop, "session_start": start.as_fen()}));
+        let evs = chain::session(rng, &ctx, &start, nops, profile, with_san);
+        if sink.room() < evs.len() {
+            sink.rotate();
+        }
+        for e in evs {
+            sink.emit(&e);
+        }
+    }
+}
+
+fn gen_notation(prop: &str, n: usize, rng: &mut StdRng, sink: &mut Sink) {
+    use rand::seq::SliceRandom;
+    use rand::Rng;
+    let positions = posgen::mixed(rng, n);
+    match prop {
+        "C08" => {
+            for b in positions.iter() {
+                sink.begin(&json!({"prop": prop, "fen": b.as_fen()}));
+                sink.emit(&notation::fen_board_event(b));
+                let fen = b.as_fen();
+                for t in notation::noncanonical_fens(rng, &fen) {
+                    sink.begin(&json!({"prop": prop, "text": t}));
+                    sink.emit(&notation::fen_parse_event(&t));
+                }
+                let r = notation::random_raw(rng);
+                sink.begin(&json!({"prop": prop, "rawfen": r.as_fen()}));
+                sink.emit(&notation::fen_raw_event(&r));
+                let t = notation::mutate(rng, &r.as_fen());
+                sink.emit(&notation::fen_parse_event(&t));
+            }
+            // every run-length pattern of one rank: 2^8 occupancy masks
+            for mask in 0..256u32 {
+                let mut r = owlchess::RawBoard::empty();
+                let rank = rng.gen_range(0..8usize);
+                for f in 0..8 {
+                    if mask & (1 << f) != 0 {
+                        r.cells[rank * 8 + f] = owlchess::Cell::from_index(rng.gen_range(1..13));
+                    }
+                }
+                sink.emit(&notation::fen_raw_event(&r));
+            }
+        }
+        "C09" => {
+            for b in positions.iter() {
+                sink.begin(&json!({"prop": prop, "fen": b.as_fen()}));
+                sink.emit(&notation::san_event(rng, b));
+            }
+        }
+        "C10" => {
+            for b in positions.iter() {
+                sink.begin(&json!({"prop": prop, "fen": b.as_fen()}));
+                sink.emit(&notation::uci_event(b));
+            }
+        }
+        "C12" => {
+            let alphabet: Vec<char> = "ah18e4NxQ=+#O-0 wKq/.é€😀\u{0}".chars().collect();
+            let deep = std::env::var("HARNESS_DEEP").is_ok();
+            let mut strings = notation::all_strings(&alphabet, 2);
+            let l3 = notation::all_strings(&alphabet, 3);
+            if deep {
+                strings = l3;
+            } else {
+                for s in l3.iter().filter(|s| s.chars().count() == 3) {
+                    if rng.gen_range(0..12) == 0 {
+                        strings.push(s.clone());
+                    }
+                }
+            }
+            let pos: Vec<owlchess::Board> = positions.iter().take(8).cloned().collect();
+            // grammar-directed: valid texts of every kind and their mutations
+            let mut valid: Vec<String> = vec!["e2e4".into(), "e7e8q".into(), "0000".into(), "O-O".into(), "O-O-O+".into(),
+                "Nbd2".into(), "exd5".into(), "e8=Q#".into(), "dcB".into(), "KQkq".into(), "-".into(), "w".into(), "b".into(),
+                "e4".into(), "a1".into(), "h8".into(), "P".into(), "k".into(), ".".into(), "Qh4xe1++".into(), "R1a3".into()];
+            for b in positions.iter().take(if deep { 400 } else { 40 }) {
+                valid.push(b.as_fen());
+                for m in owlchess::movegen::legal::gen_all(b).iter().take(6) {
+                    valid.push(m.to_string());
+                    if let Ok(s) = m.san(b) {
+                        valid.push(s.to_string());
+                    }
+                }
+                let pl = posgen::playout(rng, b, 6);
+                let _ = pl;
+            }
+            let reps = if deep { 12 } else { 3 };
+            for v in valid.clone() {
+                strings.push(v.clone());
+                for _ in 0..reps {
+                    strings.push(notation::mutate(rng, &v));
+                }
+            }
+            // long and random-unicode strings
+            strings.push("e2e4 ".repeat(400));
+            strings.push("é".repeat(1000));
+            strings.push("8/8/8/8/8/8/8/8 w - - 0 1".repeat(3));
+            for _ in 0..(if deep { 3000 } else { 200 }) {
+                let len = rng.gen_range(1..12);
+                let s: String = (0..len).map(|_| char::from_u32(rng.gen_range(0..0x2fff)).unwrap_or('x')).collect();
+                strings.push(s);
+            }
+            // UCI lists with every kind of whitespace
+            for sep in [" ", "  ", "\t", "\n", "\r\n", "\u{a0}", "\u{2003}", "\u{c}", "\u{b}", "\u{85}"] {
+                strings.push(format!("e2e4{sep}e7e5{sep}g1f3"));
+                strings.push(format!("{sep}e2e4{sep}"));
+            }
+            for s in strings.iter() {
+                for what in notation::PARSERS.iter() {
+                    let needs_pos = matches!(*what, "from_uci" | "from_san" | "ucilist");
+                    let b = if needs_pos { pos.choose(rng).unwrap() } else { &pos[0] };
+                    sink.begin(&json!({"prop": prop, "what": what, "text": s}));
+                    let mut ev = notation::parse_event(what, s, b);
+                    if needs_pos {
+                        ev["pos"] = proj::raw_json(b.raw());
+                    }
+                    sink.emit(&ev);
+                }
+            }
+        }
+        _ => unreachable!(),
+    }
+}
+
+/// Positions enumerated by TLC (spec/MC_Families.tla) replayed into the real code: one event per position.
+fn gen_from(prop: &str, posfile: &Path, out: &Path, cap: usize) {
+    let ctx = query::Ctx::new();
+    let mut sink = Sink::new(out, cap);
+    let mut rng = StdRng::seed_from_u64(7);
+    let text = std::fs::read_to_string(posfile).unwrap();
+    let mut rejected = 0usize;
+    for line in text.lines() {
+        if line.trim().is_empty() {
+            continue;
+        }
+        let v: Value = serde_json::from_str(line).unwrap();
+        let raw = proj::raw_from_json(&v["pos"]);
+        let b = match owlchess::Board::try_from(raw) {
+            Ok(b) if *b.raw() == raw => b,
+            _ => {
+                rejected += 1;
+                continue;
+            }
+        };
+        sink.begin(&json!({"prop": prop, "fen": b.as_fen(), "fam": v["fam"]}));
+        match prop {
+            "C04" | "C05" => {
+                let mut evs = session::all_moves_once(&b);
+                if prop == "C05" {
+                    evs.extend(session::hash_pairs(&mut rng, &b));
+                }
+                if sink.room() < evs.len() {
+                    sink.rotate();
+                }
+                for e in evs {
+                    sink.emit(&e);
+                }
+            }
+            _ => {
+                let mut ev = query_one(&ctx, &b, prop);
+                ev.as_object_mut().unwrap().insert("fam".into(), v["fam"].clone());
+                sink.emit(&ev);
+            }
+        }
+    }
+    println!("GEN prop={} events={} rejected_by_library={}", prop, sink.finish(), rejected);
 }
 
 fn main() {
@@ -158,6 +363,10 @@ fn main() {
             }
             std::process::exit(if bad > 0 { 1 } else { 0 });
         }
+        "gen-from" => {
+            let cap: usize = args.get(5).map(|s| s.parse().unwrap()).unwrap_or(500);
+            gen_from(&args[2], &PathBuf::from(&args[3]), &PathBuf::from(&args[4]), cap);
+        }
         "regen" => {
             regen(&args[2], &PathBuf::from(&args[3]), &PathBuf::from(&args[4]));
         }
@@ -169,6 +378,18 @@ fn main() {
             let cap: usize = args.get(6).map(|s| s.parse().unwrap()).unwrap_or(500);
             match prop.as_str() {
                 "C01" | "C03" | "C06" | "C07" | "C16" => gen_queries(prop, n, seed, &out, cap),
+                "C02" | "C13" | "C14" | "C17" => {
+                    let mut rng = StdRng::seed_from_u64(seed);
+                    let mut sink = Sink::new(&out, cap);
+                    gen_chain(prop, n, &mut rng, &mut sink);
+                    println!("GEN prop={} events={}", prop, sink.finish());
+                }
+                "C08" | "C09" | "C10" | "C12" => {
+                    let mut rng = StdRng::seed_from_u64(seed);
+                    let mut sink = Sink::new(&out, cap);
+                    gen_notation(prop, n, &mut rng, &mut sink);
+                    println!("GEN prop={} events={}", prop, sink.finish());
+                }
                 "C04" | "C05" => {
                     let mut rng = StdRng::seed_from_u64(seed);
                     let mut sink = Sink::new(&out, cap);
